@@ -207,6 +207,7 @@ def canon_model_items(text):
 # ---- the decode oracle, probed from the real receiver -------------------------------
 
 _oracle_cache = {}
+_probe_errors = []
 
 
 def luba_frame(cmd, payload):
@@ -245,7 +246,10 @@ def decodes(kind, path, bits, data, dt):
             raise InfraError("sci oracle asked for %d bits" % bits)
         res = any(t == "obs" for t, _ in r.log)
     if r.errs:
-        raise InfraError("oracle probe raised %s for %r" % (r.errs, k))
+        # the real receiver let an exception escape data_received on ONE well-formed frame: that is the property's
+        # "no input raises an internal error", not an infrastructure problem - kept for correspond() to report
+        _probe_errors.append((k, list(r.errs)))
+        res = False
     _oracle_cache[k] = res
     return res
 
@@ -520,11 +524,25 @@ def repeat_suite(ctx, corr, ls):
             for k in (2, 3):
                 got = both(kind, kind + "_repeat", f * k)
                 direct(kind, tag, f, k, got)
+            # a long monitoring session: the same kind of item 40 times in a row with nobody taking items off the
+            # queues (a bus monitor that reads later, an application that only sends): all 40 are there, in order,
+            # and the receiver is still in step  (strengthening after seeded round 6)
+            got = None
+            for ch in ([list(f * 40)], [list(f * 17), list(f * 23)]):
+                impl, _spec = compare(ctx, corr, ls, kind, kind + "_long", ch)
+                got = impl["items"]
+            direct(kind, tag, f, 40, got)
             # the same frame again after frames that are dropped (bad checksum, unknown type/status, bad length)
             d = rng.choice(dropped)
             both(kind, kind + "_repeat", f + d + f)
             d2 = rng.choice(dropped)
             both(kind, kind + "_repeat", f + d + d2 + f + f)
+    # 300 backward frames / observed commands in one go (several seconds of bus traffic)
+    for kind, frames in (("luba", [luba_frame(0x31, [0, 0, 0, 0x88, 0x21]), luba_frame(0x31, [0, 0, 0, 0x90, 0xFE, 0x80])]),
+                         ("sci", [sci_frame(0x32, 0, 0, 0x21), sci_frame(0x33, 0, 0xFE, 0x80)])):
+        for f in frames:
+            impl, _spec = compare(ctx, corr, ls, kind, kind + "_long", [list(f * 300)])
+            direct(kind, "300 in a row", f, 300, impl["items"])
     # SCI error reports: all pairs of error codes, back to back / separated by every kind of dropped frame / by
     # a delivered frame
     err = lambda c, ident=3: sci_frame((ident << 4) | 7, 0, 0, c)  # noqa
@@ -713,6 +731,17 @@ def correspond(ctx, corr):
                 compare(ctx, corr, ls, "sci", "sci_devicetype", [stream])
     finally:
         ls.close()
+    seen = set()
+    for (kind, path, bits, data, dt), errs in _probe_errors:
+        if (kind, path, tuple(errs)) in seen:
+            continue
+        seen.add((kind, path, tuple(errs)))
+        corr.violate("rx:%s:internal-error" % kind,
+                     {"receiver": kind, "frame": "%d bits, value %#x, seen as %s" % (
+                         bits, data, "an observed frame" if path == "rx" else "a transmit confirmation"),
+                      "device type remembered from the preceding EnableDeviceType": dt},
+                     "the frame is delivered or set aside; no exception leaves data_received", " ".join(errs),
+                     "a single well-formed frame makes the receiver raise")
 
 
 def _rerun(ctx, inp):
